@@ -1371,6 +1371,8 @@ class _SinkTrace(object):
         self.last = None
         self.by_flow = {}
         self.restore = []
+        self.state_ids = set()
+        self.state_ids_of = None
 
     def install(self):
         from lian.taint import taint_analysis as ta
@@ -1383,6 +1385,10 @@ class _SinkTrace(object):
             res = orig_tag(self_, node)
             ops = []
             try:
+                sfg = self_.sfg
+                if trace.state_ids_of != id(sfg):
+                    trace.state_ids = {n.node_id for n in sfg.nodes if n.node_type == 3}
+                    trace.state_ids_of = id(sfg)
                 for pred in self_.sfg.predecessors(node):
                     ed = self_.sfg.get_edge_data(pred, node)
                     if not ed:
@@ -1391,7 +1397,9 @@ class _SinkTrace(object):
                         if data.edge_type != SFG_EDGE_KIND.SYMBOL_IS_USED:
                             continue
                         if self_.taint_analysis.get_symbol_with_states_tag(pred):
-                            ops.append((int(data.pos), str(pred.name)))
+                            # does the symbol's own tag sit under an id that is also the id of a STATE node?
+                            own = self_.taint_analysis.taint_manager.get_symbol_tag(pred.node_id)
+                            ops.append((int(data.pos), str(pred.name), bool(own) and pred.node_id in trace.state_ids))
             except Exception:
                 ops = None
             trace.last = (getattr(node, "def_stmt_id", None), str(getattr(node, "name", "")), ops)
@@ -1449,7 +1457,7 @@ def run_lian(files, rules, keep_from_code=False, propagation=None, read_json=Fal
         finally:
             if trace is not None:
                 trace.uninstall()
-        out = {"flows": set(), "detail": [], "exc": None, "nflows": 0, "operands": {}}
+        out = {"flows": set(), "detail": [], "exc": None, "nflows": 0, "operands": {}, "id_clash": set()}
         if read_json:
             # second observation point: what a non-quiet run writes to taint/taint_data_flow.json
             out["json_flows"] = None
@@ -1486,8 +1494,10 @@ def run_lian(files, rules, keep_from_code=False, propagation=None, read_json=Fal
                     if trace is not None:
                         names = out["operands"].setdefault((a[0], a[1], b[0], b[1]), set())
                         for (_sid, op, ops) in trace.by_flow.get((f.source_stmt_id, f.sink_stmt_id), []):
-                            for pos, nm in (ops or []):
+                            for pos, nm, clash in (ops or []):
                                 names.add(lian_operand(op, pos))
+                                if clash:
+                                    out["id_clash"].add((a[0], a[1], b[0], b[1]))
         return out
     finally:
         shutil.rmtree(d, ignore_errors=True)
